@@ -279,7 +279,21 @@ def run(ctx):
         'relative numbering inside a value, index ranges of successive values disjoint and increasing (expected structure '
         'from the generator AST). The same cases go through the extracted model (event sequences compared). stylesheet: '
         'snippet sums x css/scss/sass/less/sss/stylus x newline/indent/baseIndent/between/after: positions oracle on the '
-        'implementation. non-trivial = at least one field callback and three text callbacks; distinct by (abbreviation, config).')
+        'implementation. non-trivial = at least one field callback and three text callbacks; distinct by (abbreviation, config). '
+        'stylesheet FORMATTER stream (css_stream): corpus, fixed cases, every built-in snippet key alone, random sums of '
+        'snippet keys / unknown words with numbers, units, colours, keywords, explicit ${n} / ${n:ph} / ${name} fields (also '
+        'with line feeds in the placeholder), strings (also multi-line), function calls, `!`, under css/scss/sass/less/sss/stylus '
+        'x newline in {LF, CRLF, CR, empty, "~~"} x indent x baseIndent x stylesheet.between (also with a line feed) / after x '
+        'format / skipUnmatched / shortHex / json x user snippet tables (property snippets with alternatives, multi-line raw '
+        'snippets) x context scopes x two output.field callbacks (identity, editor tabstop); plus synthetic resolved property '
+        'lists (nested function calls, multi-line literals and names, fields without index, stray tokens) fed to '
+        'emmet.stylesheet.stringify. Oracle per run: positions of every callback as above; per property the indices given to '
+        'output.field differ pairwise like those of its field tokens. Tie 1: the extracted model/CssFormatStream.css_stream on '
+        'the very property list stringify received -- full event sequence (text/field, index, returned string, offset, line, '
+        'column). Tie 2: the whole pipeline from the abbreviation evaluated inside Coq (run/StyleEvents.v) -- same observable.')
+    if os.environ.get('VERIF_C13_PART') == 'css':      # development aid: stylesheet formatter stream only
+        css_stream(ctx, ok)
+        return
     rng = ctx.rng
     cases = []
     for rec in load_corpus():
